@@ -48,7 +48,7 @@ impl Method for Conv {
 	type Output = Self::Input;
 
 	fn new(weights: Self::Params, value: &Self::Input) -> Result<Self, Error> {
-		const MAX_WEIGHTS_LEN: usize = PeriodType::MAX as usize;
+		const MAX_WEIGHTS_LEN: usize = PeriodType::MAX as usize - 1;
 
 		match weights.len() {
 			1..=MAX_WEIGHTS_LEN => {
